@@ -80,9 +80,11 @@ pub fn parse_uint(i: &[u8]) -> (r: core::result::Result<(&[u8], u64), NomErr>)
     ensures r matches Ok(p) && p.1 == be_uint(i@)
 { unimplemented!() }
 // controls_impl::parse_controls / build_tag: contracts discharged in V-controls
-pub uninterp spec fn controls_of(t: StructureTag) -> Seq<Control>;
+pub uninterp spec fn controls_of(t: StructureTag) -> Option<Seq<Control>>;
 #[verifier::external_body]
-pub fn parse_controls(t: StructureTag) -> (r: Vec<Control>) ensures r@ == controls_of(t) { unimplemented!() }
+pub fn parse_controls(t: StructureTag) -> (r: Option<Vec<Control>>)
+    ensures match controls_of(t) { Some(s) => r matches Some(v) && v@ == s, None => r is None }
+{ unimplemented!() }
 pub uninterp spec fn control_tree(rc: RawControl) -> T;
 #[verifier::external_body]
 pub fn build_tag(rc: RawControl) -> (r: StructureTag) ensures st_tree(r) == control_tree(rc) { unimplemented!() }
@@ -136,8 +138,11 @@ pub open spec fn envelope(t: StructureTag) -> Option<Env> {
         frame_status(old(buf).view()) matches FrameStatus::Frame(n, t) ==> (envelope(t) is None ==> r is Err), //# C11.malformed_envelope_is_decoding_error
         // C01/C03: id, protocolOp and controls come from the same envelope
         frame_status(old(buf).view()) matches FrameStatus::Frame(n, t) ==> (envelope(t) matches Some(e) ==>
+            ((e.controls matches Some(c) && controls_of(c) is None) ==> r is Err)), //# C11.malformed_control_list_is_decoding_error
+        frame_status(old(buf).view()) matches FrameStatus::Frame(n, t) ==> (envelope(t) matches Some(e) ==>
+            (!(e.controls matches Some(c) && controls_of(c) is None) ==>
             (r matches Ok(Some(m)) && m.0 == (be_uint(e.id_octets) as i32) && m.1.0 == Tag::StructureTag(e.op)
-             && (e.controls matches Some(c) ==> m.1.1@ == controls_of(c)) && (e.controls is None ==> m.1.1@.len() == 0))), //# C01+C03.id_op_and_controls_from_the_same_envelope
+             && (e.controls matches Some(c) ==> Some(m.1.1@) == controls_of(c)) && (e.controls is None ==> m.1.1@.len() == 0)))), //# C01+C03.id_op_and_controls_from_the_same_envelope
 //@end
 
 pub struct LdapCodec { pub g: u8 }
